@@ -117,7 +117,11 @@ func nz[T any](xs []T) []T {
 
 // rndPattern derives a mask pattern from a URL so that it matches reasonably often.
 func rndPattern(rnd *rand.Rand, url, host string) string {
-	switch rnd.Intn(15) {
+	switch rnd.Intn(16) {
+	case 15:
+		// a dollar sign at the very end: with options behind it ("x$$third-party") and, when the rule has none, as the last
+		// character of the text - a literal character either way, which none of the URLs has
+		return url[:7+rnd.Intn(len(url)-7)] + "$"
 	case 12:
 		// a pipe that is no anchor is a literal character: none of the URLs has one
 		return host + "|" + []string{"zzz", "/", host}[rnd.Intn(3)]
@@ -324,7 +328,7 @@ func cmdDriveRule(args []string) error {
 				continue
 			}
 			if cerr := checkRendered(a, rule); cerr != nil {
-				return fmt.Errorf("renderer self-check failed for %q: %v", text, cerr)
+				return rejectedErr("the rule %q is parsed differently from what the specification says: %v", text, cerr)
 			}
 			real, berr := q.build(nil)
 			if berr != nil {
